@@ -45,6 +45,37 @@ F64 = torch.float64
 CAP = 400
 
 
+CALL_TIMEOUT_S = 30
+
+
+class _deadline:
+    """a loop that never stops (e.g. the accepted loss not carried forward with max_iter = -1) must not hang
+    the driver: SIGALRM-based guard, only armed in the main thread"""
+
+    def __init__(self, seconds):
+        self.seconds = seconds
+        self.armed = False
+
+    def _fire(self, signum, frame):
+        raise TimeoutError('no result within %d s' % self.seconds)
+
+    def __enter__(self):
+        import signal
+        import threading
+        if hasattr(signal, 'SIGALRM') and threading.current_thread() is threading.main_thread():
+            self.old = signal.signal(signal.SIGALRM, self._fire)
+            signal.setitimer(signal.ITIMER_REAL, self.seconds)
+            self.armed = True
+        return self
+
+    def __exit__(self, *exc):
+        if self.armed:
+            import signal
+            signal.setitimer(signal.ITIMER_REAL, 0)
+            signal.signal(signal.SIGALRM, self.old)
+        return False
+
+
 class Net(torch.nn.Module):
     def __init__(self, A, L, n_out, hidden, kind, seed):
         super().__init__()
@@ -171,7 +202,8 @@ def _call(case, model):
         kw['loss'] = torch.nn.L1Loss(reduction='none')
     elif case.get('explicit_loss'):
         kw['loss'] = torch.nn.MSELoss(reduction='none')
-    return greedy_substitution(model, X, list(case['motifs']), y, **kw)
+    with _deadline(CALL_TIMEOUT_S):
+        return greedy_substitution(model, X, list(case['motifs']), y, **kw)
 
 
 def check_greedy(case, _info=None):
